@@ -417,6 +417,7 @@ pub fn generate(seed: u64, thorough: bool, emit: &mut dyn FnMut(String)) {
         emit(s);
     }
     hardening_families(seed, thorough, emit);
+    word_families(seed, thorough, emit);
 }
 
 // ------------------------------------------------------------------------------------ hardening families
@@ -1080,4 +1081,323 @@ fn big_power_text(rng: &mut Rng) -> (String, String) {
         want.push_str(&format!(" {} {c} 0 {p}", neg as u8));
     }
     (text, want)
+}
+
+// ------------------------------------------------------------------------------------ words of other parsers
+//
+// A term of the grammar is an optional coefficient followed by single-letter variables - so `inf`, `NaN`, `Infinity`,
+// `e`, `pi`, `ln`, `1e+5`, `0xf`, `3j`, `true` ... are ordinary terms (i*n*f, N*a^2, ..., e + 5, 0*x*f, 3*j, t*r*u*e), although
+// number parsers, constant tables and function tables of other languages read them differently.  Every such text is sent
+// with its intended term list (a repeated letter multiplies: its exponents are added), so the oracle judges canonical
+// form (variables kept and sorted, variable list), evaluation, and the missing-variable error.
+
+/// exponent num/den (den >= 1)
+#[derive(Clone, Copy, PartialEq)]
+struct QExp {
+    num: i64,
+    den: i64,
+}
+
+fn gcd(a: i64, b: i64) -> i64 {
+    if b == 0 { a.abs().max(1) } else { gcd(b, a % b) }
+}
+
+impl QExp {
+    fn int(n: i64) -> Self {
+        QExp { num: n, den: 1 }
+    }
+    fn add(self, o: QExp) -> QExp {
+        let (n, d) = (self.num * o.den + o.num * self.den, self.den * o.den);
+        let g = gcd(n, d);
+        QExp { num: n / g, den: d / g }
+    }
+    fn text(self) -> String {
+        if self.den == 1 { format!("{}", self.num) } else { format!("{}/{}", self.num, self.den) }
+    }
+    fn xnum(self) -> XNum {
+        let neg = self.num < 0;
+        let a = self.num.unsigned_abs().to_string();
+        if self.den == 1 { xint(neg, self.num.unsigned_abs(), &self.text()) } else { xfrac(neg, &a, 0, &self.den.to_string(), 0, &self.text()) }
+    }
+}
+
+/// one term spelled letter by letter
+#[derive(Clone)]
+struct WTerm {
+    neg: bool,
+    plus: bool, // an explicit '+' in front when it is the first term
+    coef: Option<XNum>,
+    letters: Vec<(char, Option<QExp>)>,
+}
+
+impl WTerm {
+    fn word(w: &str) -> WTerm {
+        WTerm { neg: false, plus: false, coef: None, letters: w.chars().map(|c| (c, None)).collect() }
+    }
+    fn neg(mut self) -> WTerm {
+        self.neg = true;
+        self
+    }
+    fn plus(mut self) -> WTerm {
+        self.plus = true;
+        self
+    }
+    fn coef(mut self, c: XNum) -> WTerm {
+        self.coef = Some(c);
+        self
+    }
+    /// exponent on the k-th letter (negative k counts from the end)
+    fn exp(mut self, k: i64, e: QExp) -> WTerm {
+        let n = self.letters.len() as i64;
+        if n > 0 {
+            let k = ((k % n) + n) % n;
+            self.letters[k as usize].1 = Some(e);
+        }
+        self
+    }
+    fn body(&self, sep: &str) -> String {
+        let mut s = String::new();
+        if let Some(c) = &self.coef {
+            s.push_str(&c.text);
+            s.push_str(sep);
+        }
+        for (k, (c, e)) in self.letters.iter().enumerate() {
+            if k > 0 {
+                s.push_str(sep);
+            }
+            s.push(*c);
+            if let Some(e) = e {
+                s.push('^');
+                s.push_str(&e.text());
+            }
+        }
+        s
+    }
+    /// what the term means: each letter once, exponents of a repeated letter added
+    fn meaning(&self) -> XTerm {
+        let mut vars: Vec<(char, QExp)> = Vec::new();
+        for (c, e) in &self.letters {
+            let e = e.unwrap_or(QExp::int(1));
+            match vars.iter_mut().find(|(d, _)| d == c) {
+                Some(v) => v.1 = v.1.add(e),
+                None => vars.push((*c, e)),
+            }
+        }
+        XTerm { neg: self.neg, coef: self.coef.clone(), vars: vars.into_iter().map(|(c, e)| (c, Some(e.xnum()))).collect() }
+    }
+}
+
+/// text of a polynomial of such terms; `sep` goes between the pieces of a term, `gap` around the signs
+fn wrender(terms: &[WTerm], sep: &str, gap: &str) -> String {
+    let mut s = String::new();
+    for (k, t) in terms.iter().enumerate() {
+        if t.neg {
+            if k > 0 {
+                s.push_str(gap);
+            }
+            s.push('-');
+            s.push_str(gap);
+        } else if k > 0 {
+            s.push_str(gap);
+            s.push('+');
+            s.push_str(gap);
+        } else if t.plus {
+            s.push('+');
+            s.push_str(gap);
+        }
+        s.push_str(&t.body(sep));
+    }
+    s
+}
+
+fn with_case(word: &str, mask: u64) -> String {
+    word.chars().enumerate().map(|(k, c)| if mask >> k & 1 == 1 { c.to_ascii_uppercase() } else { c.to_ascii_lowercase() }).collect()
+}
+
+/// words that `f64::from_str` (and most number parsers) accept, in every letter case
+const NUMBER_WORDS: &[&str] = &["inf", "nan", "infinity", "e"];
+/// constants, functions, keywords and literal markers of other languages
+const OTHER_WORDS: &[&str] = &[
+    "pi", "tau", "phi", "eps", "ln", "exp", "log", "sin", "cos", "tan", "sqrt", "abs", "i", "j", "true", "false", "null", "none", "nil", "max", "min",
+    "mod", "div", "and", "or", "not", "if", "in", "is", "deg", "rad", "inff", "nani", "infi", "ninf", "pinf", "snan", "qnan", "ind", "infty", "oo", "x", "k", "M", "G",
+];
+
+pub fn word_families(seed: u64, thorough: bool, emit: &mut dyn FnMut(String)) {
+    let mut rng = Rng::new(Rng::new(seed ^ 0xC02_0003).next());
+    let mut idx = 0usize;
+    // parse (both entry points in turn) + evaluation with every variable bound + evaluation with one variable left out
+    let mut send = |rng: &mut Rng, emit: &mut dyn FnMut(String), terms: &[WTerm], sep: &str, gap: &str, also_missing: bool| {
+        let text = wrender(terms, sep, gap);
+        let meaning: Vec<XTerm> = terms.iter().map(|t| t.meaning()).collect();
+        let want = xintended(&meaning);
+        let mut letters: Vec<char> = Vec::new();
+        for t in terms {
+            for (c, _) in &t.letters {
+                if !letters.contains(c) {
+                    letters.push(*c);
+                }
+            }
+        }
+        let binds: Vec<(String, f64)> = letters.iter().map(|c| (c.to_string(), base12(rng))).collect();
+        emit(format!("parse {} {} | {}", idx % 2, req_string(&text), want));
+        emit(format!("pe {} {} | {}", req_string(&text), binds_text(&binds), want));
+        if also_missing && !binds.is_empty() {
+            let mut fewer = binds.clone();
+            fewer.remove(rng.below(binds.len() as u64) as usize);
+            emit(format!("pe {} {} | {}", req_string(&text), binds_text(&fewer), want));
+        }
+        idx += 1;
+    };
+    let two = || xint(false, 2, "2");
+    let half = || xdec(false, "5", 1, "0.5");
+    let frac = || xfrac(false, "1", 0, "2", 0, "1/2");
+    let plain = |coef: Option<XNum>, letters: &str, neg: bool| WTerm { neg, plus: false, coef, letters: letters.chars().map(|c| (c, None)).collect() };
+
+    let mut spellings: Vec<(String, bool)> = Vec::new(); // (word in a case pattern, full set of forms?)
+    for w in NUMBER_WORDS {
+        let n = w.len() as u32;
+        if n <= 4 {
+            for m in 0..(1u64 << n) {
+                spellings.push((with_case(w, m), true));
+            }
+        } else {
+            let all = (1u64 << n) - 1;
+            let mut masks = vec![0, all, 1, all - 1, 0x55 & all, 0xaa & all];
+            for _ in 0..(if thorough { 60 } else { 6 }) {
+                masks.push(rng.below(all + 1));
+            }
+            masks.dedup();
+            for m in masks {
+                spellings.push((with_case(w, m), true));
+            }
+        }
+    }
+    for w in OTHER_WORDS {
+        let n = w.len() as u32;
+        let all = (1u64 << n) - 1;
+        let mut masks = vec![0u64, all, 1];
+        if thorough {
+            for _ in 0..4 {
+                masks.push(rng.below(all + 1));
+            }
+        }
+        if w.chars().any(|c| c.is_ascii_uppercase()) {
+            masks = vec![u64::MAX]; // spelled as given
+        }
+        masks.sort();
+        masks.dedup();
+        for m in masks {
+            spellings.push((if m == u64::MAX { w.to_string() } else { with_case(w, m) }, false));
+        }
+    }
+
+    for (k, (w, full)) in spellings.iter().enumerate() {
+        let wt = || WTerm::word(w);
+        let other = WTerm::word(&spellings[(k + 7) % spellings.len()].0);
+        // alone, signed, with each coefficient form
+        send(&mut rng, emit, &[wt()], "", "", true);
+        send(&mut rng, emit, &[wt().neg()], "", "", false);
+        send(&mut rng, emit, &[wt().coef(two())], "", "", false);
+        send(&mut rng, emit, &[wt().exp(-1, QExp::int(2))], "", "", false);
+        // inside a longer polynomial, letters apart
+        send(&mut rng, emit, &[plain(Some(two()), "x", false), wt().neg(), plain(Some(frac()), "", false)], "", " ", true);
+        send(&mut rng, emit, &[wt()], " ", "", false);
+        if !*full && !thorough {
+            continue;
+        }
+        send(&mut rng, emit, &[wt().plus()], "", "", true);
+        send(&mut rng, emit, &[wt().coef(half())], "", "", false);
+        send(&mut rng, emit, &[wt().coef(frac())], "", "", false);
+        send(&mut rng, emit, &[wt().coef(xint(false, 1, "1"))], "", "", false);
+        send(&mut rng, emit, &[wt().coef(xdec(false, "10", 1, "1.0")).neg()], "", "", false);
+        send(&mut rng, emit, &[wt().coef(xint(false, 3, "3")).neg()], "", " ", false);
+        send(&mut rng, emit, &[wt().exp(-1, QExp::int(-1))], "", "", false);
+        send(&mut rng, emit, &[wt().exp(-1, QExp { num: 1, den: 2 })], "", "", false);
+        send(&mut rng, emit, &[wt().exp(-1, QExp::int(1))], "", "", false);
+        send(&mut rng, emit, &[wt().exp(0, QExp::int(1))], "", "", false);
+        send(&mut rng, emit, &[wt().exp(w.len() as i64 / 2, QExp::int(2)).neg()], "", "", false);
+        send(&mut rng, emit, &[wt(), plain(Some(xint(false, 1, "1")), "", false)], "", "", true);
+        send(&mut rng, emit, &[plain(Some(xint(false, 1, "1")), "", false), wt().neg()], "", "", true);
+        send(&mut rng, emit, &[wt().neg(), other.clone()], "", " ", false);
+        send(&mut rng, emit, &[wt().plus(), wt().neg(), wt()], "", "", false);
+        // the word next to another variable (before / after), and as the tail / head of a longer run of letters
+        let mut pre = wt();
+        pre.letters.insert(0, (if w.contains('x') { 'y' } else { 'x' }, None));
+        send(&mut rng, emit, &[pre], "", "", false);
+        let mut post = wt();
+        post.letters.push((if w.contains('y') { 'z' } else { 'y' }, Some(QExp::int(2))));
+        send(&mut rng, emit, &[post, plain(Some(two()), "", true)], "", "", false);
+        send(&mut rng, emit, &[wt().neg()], " ", " ", true);
+        send(&mut rng, emit, &[plain(None, "x", false).exp(0, QExp::int(2)), wt(), plain(Some(half()), "y", true), wt().neg().coef(two())], "", " ", false);
+    }
+
+    // ---- literal markers: exponent letters, radix prefixes, type / imaginary suffixes.  `1e+5` is the two terms `1e` and
+    //      `5`; `0xf` is zero times x times f; `3j` is three times j.  Through the multivariate parser, and (one variable
+    //      letter per text) through both parsers at a point.
+    let marks: Vec<char> = "eEfFdDlLuUiIjJxXbBoOpPnNkKmMgG".chars().collect();
+    for (mi, &v) in marks.iter().enumerate() {
+        if !thorough && mi % 2 == 1 && !"EXBO".contains(v) {
+            continue; // (quick: every other marker, the number-like ones always)
+        }
+        // (text pieces: coefficient, power of v) per term: C01's intended layout `n { neg mant scale pow }`
+        let forms: Vec<Vec<(bool, &str, u64, u32, u32)>> = vec![
+            vec![(false, "1", 1, 0, 1), (false, "5", 5, 0, 0)],          // 1e+5
+            vec![(false, "1", 1, 0, 1), (true, "5", 5, 0, 0)],           // 1e-5
+            vec![(false, "2", 2, 0, 1), (false, "3", 3, 0, 0)],          // 2E+3
+            vec![(false, ".5", 5, 1, 1), (true, "3", 3, 0, 0)],          // .5e-3
+            vec![(false, "5.", 5, 0, 1), (false, "03", 3, 0, 0)],        // 5.e+03
+            vec![(false, "1.5", 15, 1, 1), (true, "10", 10, 0, 0)],      // 1.5e-10
+            vec![(true, "1", 1, 0, 1), (false, "308", 308, 0, 0)],       // -1e+308
+            vec![(false, "1", 1, 0, 1), (true, "400", 400, 0, 0)],       // 1e-400
+            vec![(false, "1", 1, 0, 1), (false, "5", 5, 0, 1)],          // 1e+5e
+            vec![(false, "0", 0, 0, 1)],                                  // 0x
+            vec![(false, "0", 0, 0, 1), (false, "1", 1, 0, 0)],          // 0x+1
+            vec![(false, "00", 0, 0, 1), (true, "7", 7, 0, 0)],          // 00x-7
+            vec![(false, "3", 3, 0, 1)],                                  // 3j
+            vec![(false, "1", 1, 0, 1)],                                  // 1f
+            vec![(true, "1.0", 10, 1, 1)],                                // -1.0f
+            vec![(false, "", 1, 0, 1)],                                   // e
+            vec![(true, "", 1, 0, 1)],                                    // -e
+            vec![(false, "", 1, 0, 2), (false, "", 1, 0, 1)],            // e^2+e
+            vec![(false, "2", 2, 0, 3), (true, "1", 1, 0, 1), (false, "10", 10, 0, 0)], // 2e^3-1e+10
+            vec![(false, "1", 1, 0, 0), (false, "", 1, 0, 1)],           // 1+e
+        ];
+        for f in &forms {
+            let mut text = String::new();
+            let mut want1 = format!("{}", f.len());
+            let mut terms: Vec<WTerm> = Vec::new();
+            for (k, (neg, ctext, mant, scale, pow)) in f.iter().enumerate() {
+                if *neg {
+                    text.push('-');
+                } else if k > 0 {
+                    text.push('+');
+                }
+                text.push_str(ctext);
+                match pow {
+                    0 => {}
+                    1 => text.push(v),
+                    p => text.push_str(&format!("{v}^{p}")),
+                }
+                want1.push_str(&format!(" {} {mant} {scale} {pow}", *neg as u8));
+                let coef = if ctext.is_empty() { None } else { Some(xdec(false, &mant.to_string(), *scale, ctext)) };
+                let mut t = WTerm { neg: *neg, plus: false, coef, letters: vec![] };
+                if *pow >= 1 {
+                    t.letters.push((v, if *pow == 1 { None } else { Some(QExp::int(*pow as i64)) }));
+                }
+                terms.push(t);
+            }
+            debug_assert_eq!(text, wrender(&terms, "", ""));
+            send(&mut rng, emit, &terms, "", "", false);
+            for x in [int_point(&mut rng, true), 2.0, -0.5] {
+                emit(format!("both {} {} | {}", req_string(&text), rbits(x), want1));
+            }
+        }
+        // radix-prefixed "digits" that are letters: 0xf, 0XAB, 0b, 0o (zero times the letters)
+        for tail in ["f", "AB", "ff", "cafe", "dead", "e", ""] {
+            let w: String = std::iter::once(v).chain(tail.chars()).collect();
+            let t = WTerm::word(&w).coef(xint(false, 0, "0"));
+            send(&mut rng, emit, &[t.clone()], "", "", true);
+            send(&mut rng, emit, &[t.neg(), plain(Some(two()), "", false)], "", "", false);
+        }
+    }
 }
